@@ -27,14 +27,14 @@ TRUSTED = ["binary64 arithmetic of Coq's primitive floats (PrimFloat, executed b
            "the reference transcriptions of scipy.optimize.fmin / fmin_powell in harness/props/c08_ref.py (oracle side)",
            "numpy.argsort's order among tied energies is unspecified: the model accepts any sorted permutation (the observed one)"]
 ASSUMPTIONS = ["Brent's line search is an oracle: PowellRef consumes the recorded (alpha_min, fret, calls) of every line search",
-               "NaN energies are excluded (order theorems assume a strict weak order); objectives are deterministic",
+               "NaN energies: the DE selection clause is proved and exercised with them (transitivity of binary64 '<' incl. NaN, Common/FloatOrder.v, via the stdlib axiom FloatAxioms.ltb_spec); the Nelder-Mead / Powell order theorems assume a strict weak order (no NaN); objectives are deterministic",
                "random.sample returns distinct elements of its population (hypothesis sample_ok, checked on every recorded call)",
                "degenerate limits (maxiter = 0, maxfun <= 1) are outside the compared domain"]
 META = dict(
     technique="Coq proof about reference algorithms (NMref, PowellRef, Strategy) + bit-exact model/implementation correspondence by vm_compute",
     level_text=("Characteristic theorems of the reference algorithms for all objectives/orders/draws; mystic is tied to them by "
                 "running fmin, fmin_powell, the class API, every strategy function and whole DE generations against the models "
-                "bit-for-bit (PrimFloat) on generated objectives every run."),
+                "bit-for-bit (PrimFloat) on generated objectives every run (adaptive Nelder-Mead coefficients and objectives that are NaN on part of the domain included).  'Replaced only by a strictly lower trial' is proved for any transitive order and, without hypothesis, for binary64 incl. NaN."),
     level_note=("Known findings: four *Bin strategies implement the exponential loop; Nelder-Mead's zero-coordinate step is one ulp "
                 "off scipy's 0.00025; fmin_powell cannot stop after the first sweep.  Brent is an oracle."),
     design_ref="5/C08")
